@@ -100,6 +100,18 @@ def check(repo: Repo) -> Result:
         res.check(want is not None and want[0] == pv, f"prefix:{p}:{word}", LUT, f"prefix {p!r} must be {want[0] if want else '?'}", want, pv, rid=r3)
         byword.setdefault(word, set()).add(pv)
     res.check(all(len(v) == 1 for v in byword.values()), "prefix-words", LUT, "one prefix word, one value", found={k: sorted(v) for k, v in byword.items() if len(v) > 1}, rid=r3)
+    # the table is an OrderedDict built from pairs: a repeated key replaces the earlier row.  The *effective* table
+    # (last row per key) must still give every SI prefix its word form with its value - a row added under an existing
+    # key ("da": "deka") silently removes the word it shadows ("decagram", "Decameter", ...) from the name space.
+    eff = {}
+    for p_, (pv, word) in t.prefix_pairs:
+        eff[p_] = (pv, word)
+    eff_words = {w: v for (v, w) in eff.values()}
+    for p_, (val, word) in sorted(SPEC.SI_PREFIXES.items()):
+        got = eff.get(p_)
+        res.check(got is not None and got[1] == word and got[0] == val, f"effective:{p_}:{word}", f"{LUT} unit_prefixes[{p_!r}]", f"after duplicate keys are resolved (last row wins) the prefix {p_!r} must carry the SI word {word!r} with value {val:g}: otherwise every name spelled with that word stops resolving", (val, word), got, rid=r3)
+    extra = {w: v for w, v in eff_words.items() if w not in {x[1] for x in SPEC.SI_PREFIXES.values()}}
+    res.check(not extra, "effective:no-undocumented-words", LUT, "the effective prefix table has no word form outside the SI list", found=extra, rid=r3)
 
     namespaces(repo, res)
 
